@@ -127,6 +127,9 @@ def fixed_corpus():
            within('G', ['C'], preds=(('table', [['c0'], ['c1']]), 'else'))], cross('ACG', 'G', [['MinimumTrials', 3]])))
     add(D([{'name': 'C', 'levels': ['c0', 'c1', 'c2', 'c3']}, within('G', ['C'], preds=(('table', [['c0'], ['c1']]), 'else'))],
           cross('CG', 'G', [['MinimumTrials', 3]])))      # 48 sequences
+    # an unreachable derived level in the SECOND crossing (complete crossing not required)
+    add(D([A2, B2, within('G', ['A', 'B'], preds=(('table', [['a0', 'b0'], ['a0', 'b1'], ['a1', 'b0'], ['a1', 'b1']]), 'else'))],
+          multi('ABG', ['B', 'G'], mode='repeat', rcc=False)))
     # a two-trial preamble over a 3-level factor (3**2 preambles, not 3*2)
     add(D([A3, window('W', 'A', 3)], cross('AW', 'W')))
     # a window wider than the whole sequence (two trials), starting early: shifted source indices run past the grid
